@@ -205,6 +205,32 @@ var lastInfoCodes []int
 // count 1..5 meets every request kind)
 var continueK = 1
 
+// index into the frame kinds interleaved into an open header block (set by genH2Cases: every kind once)
+var interleaveI = 0
+
+// every frame type (and two unknown ones), on the request's stream, on stream 0 and on another stream
+func interleaveFrames() [][]byte {
+	var out [][]byte
+	for _, sid := range []uint32{1, 0, 3} {
+		out = append(out,
+			dataFrame(sid, []byte("x"), false),
+			rawFrame(fHeaders, 4, sid, hpackBlock(okHeaders())),
+			rawFrame(fPriority, 0, sid, cat(u32(0), []byte{16})),
+			rawFrame(fRST, 0, sid, u32(8)),
+			settingsFrame(),
+			settingsAck(),
+			rawFrame(fPush, 4, sid, cat(u32(2), hpackBlock([]hf{{":method", "GET"}}))),
+			rawFrame(fPing, 0, sid, make([]byte, 8)),
+			rawFrame(fGoAway, 0, sid, cat(u32(1), u32(0))),
+			rawFrame(fWindow, 0, sid, u32(1)),
+			rawFrame(fCont, 0, sid+2, nil),
+			rawFrame(0x0a, 0, sid, []byte("alt")),
+			rawFrame(0xff, 0xff, sid, nil),
+		)
+	}
+	return out
+}
+
 type h2gen struct {
 	shape string
 	data  func(r *hk.Rand) []byte
@@ -421,6 +447,19 @@ func h2Sequences() []h2gen {
 			blk := hpackBlock(okHeaders(hf{"x-a", strings.Repeat("a", 100)}))
 			return cat(pre, rawFrame(fHeaders, 1, 1, blk[:5]), hk.Pick(r, [][]byte{rawFrame(fPing, 0, 0, make([]byte, 8)), dataFrame(1, []byte("x"), false), rawFrame(fCont, 4, 3, blk[5:]), rawFrame(fHeaders, 4, 1, blk), settingsFrame()}), rawFrame(fCont, 4, 1, blk[5:]))
 		}},
+		{"open-block-interleave", func(r *hk.Rand) []byte {
+			// a header block left open (no END_HEADERS), then a frame of EVERY type before the CONTINUATION
+			blk := hpackBlock(okHeaders(hf{"x-a", strings.Repeat("a", 40)}, hf{"content-length", "2"}))
+			fs := interleaveFrames()
+			f := fs[interleaveI%len(fs)]
+			return cat(pre, rawFrame(fHeaders, 0, 1, blk[:7]), f, rawFrame(fCont, 4, 1, blk[7:]), dataFrame(1, []byte("hi"), true))
+		}},
+		{"open-trailer-block-interleave", func(r *hk.Rand) []byte {
+			tr := hpackBlock([]hf{{"x-t", "1"}, {"x-u", strings.Repeat("u", 30)}})
+			fs := interleaveFrames()
+			f := fs[interleaveI%len(fs)]
+			return cat(pre, headersFrame(1, okHeaders(), false, true), dataFrame(1, []byte("hi"), false), rawFrame(fHeaders, 1, 1, tr[:5]), f, rawFrame(fCont, 4, 1, tr[5:]))
+		}},
 		{"continuation-split-everywhere", func(r *hk.Rand) []byte {
 			blk := hpackBlock(okHeaders(hf{"x-a", strings.Repeat("a", 60)}, hf{"content-length", "2"}))
 			b := rawFrame(fHeaders, 0, 1, blk[:1])
@@ -539,6 +578,12 @@ func genH2Cases(r *hk.Rand, quick bool, add func(*Case)) {
 		if g.shape == "continue-x" && reps < 15 {
 			reps = 15 // 3 request kinds x 5 counts
 		}
+		if strings.HasSuffix(g.shape, "block-interleave") {
+			reps = len(interleaveFrames()) // every frame kind once
+			if g.shape == "open-trailer-block-interleave" && quick {
+				reps = 13 // the request's stream only
+			}
+		}
 		for i := 0; i < reps; i++ {
 			if i >= 3 && (strings.Contains(g.shape, "flood") || g.shape == "flow-control-violation") {
 				break // big streams: a few repetitions are enough, and they stay in memory
@@ -568,6 +613,7 @@ func genH2Cases(r *hk.Rand, quick bool, add func(*Case)) {
 			rr := r.Fork()
 			lastInfoCodes = nil
 			continueK = 1 + i%5
+			interleaveI = i
 			c.Rounds = []Round{{Data: g.data(rr), Segs: randSegs(r), End: hk.Pick(r, []string{"fin", "fin", "fin", "fin", "fin", "fin", "fin", "fin", "fin", "hold"}), Hold: 2500}}
 			c.InfoCodes = lastInfoCodes
 			if g.shape == "continue-x" {
